@@ -144,7 +144,7 @@ def assemble_data(model, case, aux_override=None):
     return main + aux
 
 
-def check_case(pyhf, case, backend, precision, props, rng, model_cache):
+def check_case(pyhf, case, backend, precision, props, rng, model_cache, extra_batch=False):
     """Returns (findings, drift list, stats dict)."""
     import leaf
 
@@ -292,6 +292,20 @@ def check_case(pyhf, case, backend, precision, props, rng, model_cache):
                 F.append(Finding("C12", f"Workspace.build(model, data) round trip failed: {type(e).__name__}: {e}", {"case": slim}, tags_b + [f"exc:{type(e).__name__}"]))
         except Exception as e:  # noqa: BLE001
             F.append(Finding("C12", f"Workspace path failed on a well-formed specification: {type(e).__name__}: {e}", {"case": slim}, tags_base + ["workspace", f"exc:{type(e).__name__}"]))
+        # ---- the configuration is a value, not a history: querying it again (after fits-style use: copy, edit the copy)
+        #      gives the same answers
+        try:
+            f2 = cfg.suggested_fixed()
+            scratch = list(f2)
+            if scratch:
+                scratch[0] = not scratch[0]
+            again = (cfg.suggested_init(), cfg.suggested_bounds(), cfg.suggested_fixed(), cfg.par_names, list(cfg.auxdata))
+            firstq = (init, bnds, fixed, pnames, list(cfg.auxdata))
+            if [list(map(str, a)) for a in again] != [list(map(str, a)) for a in firstq] or len(cfg.suggested_fixed()) != cfg.npars:
+                F.append(Finding("C12", "configuration suggestions change when queried again (one entry per component no longer holds)",
+                                 {"case": slim, "first": [list(map(str, a)) for a in firstq], "again": [list(map(str, a)) for a in again]}, tags_base + ["requery"]))
+        except Exception as e:  # noqa: BLE001
+            F.append(Finding("C12", f"re-querying the configuration failed: {type(e).__name__}: {e}", {"case": slim}, tags_base + ["requery"]))
         # implementation-shaped prediction (drift tier only)
         if order != [names.PARAMS[n] for n in case["impl"]["par_order"]]:
             drift.append(("HFModel.MkCfg", f"par_order {order} != predicted {[names.PARAMS[n] for n in case['impl']['par_order']]}"))
@@ -433,7 +447,9 @@ def check_case(pyhf, case, backend, precision, props, rng, model_cache):
                         shp = tuple(tl.shape(model_b.make_pdf(tl.astensor(rows)).sample((3,))))
                         shp1 = tuple(tl.shape(model.make_pdf(tl.astensor(pars)).sample((3,))))
                     except Exception as e:
-                        if not any(frac(t["lam"]) <= 0 for t in case["terms"]["main"] + case["terms"]["cons"] if t["k"] == "pois"):
+                        # log-density / sampling are undefined where an expected rate is <= 0 (either row): not judged there
+                        nonpos = any(x <= 0 for row in fullb for x in row) or any(x <= 0 for row in fulls for x in row)
+                        if not nonpos and not any(frac(t["lam"]) <= 0 for t in case["terms"]["main"] + case["terms"]["cons"] if t["k"] == "pois"):
                             F.append(Finding("C10", f"batched logpdf/sample failed: {type(e).__name__}: {e}", det, tags_base + ["evalfail"]))
                     else:
                         ltol = 1e-10 if precision == "64b" else 1e-4
@@ -444,4 +460,31 @@ def check_case(pyhf, case, backend, precision, props, rng, model_cache):
                         nd = cfg.nmaindata + cfg.nauxdata
                         if shp != (3, 2, nd) or shp1 != (3, nd):
                             F.append(Finding("C10", f"sampled data shape {shp} / {shp1}, expected (3, 2, {nd}) / (3, {nd})", det, tags_base + ["sampleshape"]))
+    # ---------------- C10: other batch sizes (1, 3, 8): rows alternate between the two exact points
+    if "C10" in props and model_b is not None and first:
+        pars2 = assemble_pars(model, case["theta2"])
+        data = assemble_data(model, case)
+        for N in (1, 3) + ((8,) if extra_batch else ()):
+            rows = [pars if r % 2 == 0 else pars2 for r in range(N)]
+            try:
+                mN = pyhf.Model(ent["spec"], poi_name=ent["poi"], batch_size=N, **kw)
+                gN = tl.tolist(mN.expected_data(rows))
+                sN = [tl.tolist(model.expected_data(r)) for r in rows]
+                lN = [float(x) for x in tl.tolist(mN.logpdf(tl.astensor(rows), tl.astensor([data] * N)))]
+                l1 = [float(tl.tolist(model.logpdf(tl.astensor(r), tl.astensor(data)))[0]) for r in rows]
+            except Exception as e:  # noqa: BLE001
+                try:
+                    nonpos = any(x <= 0 for r in rows for x in tl.tolist(model.expected_data(r)))
+                except Exception:  # noqa: BLE001
+                    nonpos = False
+                if not nonpos and not any(frac(t["lam"]) <= 0 for t in case["terms"]["main"] + case["terms"]["cons"] if t["k"] == "pois"):
+                    F.append(Finding("C10", f"batch_size={N} evaluation failed: {type(e).__name__}: {e}", {"case": slim}, tags_base + ["evalfail", f"batch:{N}"]))
+                continue
+            okr = len(gN) == N and all(len(a) == len(b) and all(x == y or abs(x - y) <= tol * max(1.0, abs(y)) for x, y in zip(a, b)) for a, b in zip(gN, sN))
+            ltol = 1e-10 if precision == "64b" else 1e-4
+            okl = len(lN) == N and all(a == b or abs(a - b) <= ltol * max(1.0, abs(b)) or (math.isinf(a) and math.isinf(b)) or (math.isnan(a) and math.isnan(b)) for a, b in zip(lN, l1))
+            if not okr or not okl:
+                F.append(Finding("C10", f"batch_size={N}: a row of the batched expected_data / logpdf differs from the unbatched evaluation of that row",
+                                 {"case": slim, "rows": rows, "batched": gN, "single": sN, "logpdf": [lN, l1]}, tags_base + ["rows", f"batch:{N}"]))
+                break
     return F, drift, {"npars": cfg.npars, "nmods": len(cfg.modifiers)}
